@@ -1,9 +1,11 @@
 import Driver.Proto
 import Driver.OpsFem
 import Driver.OpsDiffGeo
+import Driver.OpsTopo
+import Driver.OpsMesh
 open LapyVerif.Driver
 
-def allOps : List (String × P String) := femOps ++ diffGeoOps
+def allOps : List (String × P String) := femOps ++ diffGeoOps ++ topoOps ++ meshOps
 
 def handle (line : String) : String :=
   let toks := ((line.trimAscii.toString.splitOn " ").filter (· ≠ "")).toArray
